@@ -28,9 +28,10 @@ VARIABLES l, scen, viol,
           res,        \* finished invocations of this scenario by label: label -> [draws, verdict, consumed, nwords]
           pr,         \* recording at prune.begin (to compare with prune.end)
           kind,       \* phase kind of the invocation in progress
-          runno       \* number of the run (of the scenario) in progress
+          runno,      \* number of the run (of the scenario) in progress
+          iter        \* index of the random test case in progress
 
-vars == <<l, scen, viol, words, wpos, fz, obs, res, pr, kind, runno>>
+vars == <<l, scen, viol, words, wpos, fz, obs, res, pr, kind, runno, iter>>
 
 Ev == Trace[l]
 Is(e) == l <= Len(Trace) /\ Trace[l].ev = e
@@ -46,13 +47,13 @@ VerdictOf ==
 Verdicts == IF Property = "ALL" THEN UNION { VerdictOf[p] : p \in DOMAIN VerdictOf } ELSE VerdictOf[Property]
 
 Init == /\ l = 1 /\ scen = [id |-> ""] /\ viol = {} /\ words = <<>> /\ wpos = 0 /\ fz = NoFz /\ obs = NoObs
-        /\ res = [x \in {} |-> 0] /\ pr = [data |-> <<>>, groups |-> <<>>] /\ kind = "none" /\ runno = 0
+        /\ res = [x \in {} |-> 0] /\ pr = [data |-> <<>>, groups |-> <<>>] /\ kind = "none" /\ runno = 0 /\ iter = 0
 
 ScenBegin == /\ Is("scen.begin") /\ Adv /\ scen' = Ev /\ viol' = {} /\ words' = <<>> /\ wpos' = 0 /\ fz' = NoFz /\ obs' = NoObs
-             /\ res' = [x \in {} |-> 0] /\ pr' = [data |-> <<>>, groups |-> <<>>] /\ kind' = "none" /\ runno' = 0
+             /\ res' = [x \in {} |-> 0] /\ pr' = [data |-> <<>>, groups |-> <<>>] /\ kind' = "none" /\ runno' = 0 /\ iter' = 0
 ScenEnd == /\ Is("scen.end") /\ Adv
            /\ IF viol \cap Verdicts = {} THEN TRUE ELSE PrintT(<<"VIOLATED", scen.id, viol \cap Verdicts, l>>)
-           /\ UNCHANGED <<scen, viol, words, wpos, fz, obs, res, pr, kind, runno>>
+           /\ UNCHANGED <<scen, viol, words, wpos, fz, obs, res, pr, kind, runno, iter>>
 
 \* ---- which stream is being read -------------------------------------------
 Phase ==
@@ -61,13 +62,13 @@ Phase ==
                 [] Ev.kind \in {"capture", "final"} -> Limbs(Ev.buf)
                 [] Ev.kind = "fuzz" -> words
                 [] OTHER -> <<>>
-  /\ wpos' = 0 /\ obs' = NoObs
+  /\ wpos' = 0 /\ obs' = NoObs /\ iter' = (IF Ev.kind = "gen" THEN Ev.iter ELSE iter)
   /\ UNCHANGED <<scen, viol, fz, res, pr, runno>>
 
 FFLoad ==
   /\ Is("h.ff.load") /\ Adv
   /\ words' = (IF Ev.ok THEN Limbs(Ev.buf) ELSE <<>>) /\ wpos' = 0
-  /\ UNCHANGED <<scen, viol, fz, obs, res, pr, kind, runno>>
+  /\ UNCHANGED <<scen, viol, fz, obs, res, pr, kind, runno, iter>>
 
 \* MakeFuzz decoded its input: compare with the decoding done here
 FuzzBuf ==
@@ -75,11 +76,11 @@ FuzzBuf ==
   /\ LET mine == WordsOfBytes(fz.input) IN   \* the bytes the harness passed to the fuzz target
      /\ viol' = viol \cup If(Limbs(Ev.words) # mine, "decode_mismatch")
      /\ words' = mine /\ wpos' = 0
-  /\ UNCHANGED <<scen, fz, obs, res, pr, kind, runno>>
+  /\ UNCHANGED <<scen, fz, obs, res, pr, kind, runno, iter>>
 
 FuzzBegin ==
   /\ Is("fuzz.begin") /\ Adv /\ fz' = Ev /\ obs' = NoObs /\ words' = WordsOfBytes(Ev.input) /\ wpos' = 0
-  /\ UNCHANGED <<scen, viol, res, pr, kind, runno>>
+  /\ UNCHANGED <<scen, viol, res, pr, kind, runno, iter>>
 
 \* one drawBits on a buffer stream
 Bits ==
@@ -89,19 +90,19 @@ Bits ==
                           \cup If(Ev.u.l # MaskN(Ev.raw.l, Ev.n), "mask_mismatch")
           /\ wpos' = wpos + 1
      ELSE /\ viol' = viol \cup If(Ev.src = "buf" /\ Ev.u.l # MaskN(Ev.raw.l, Ev.n), "mask_mismatch") /\ wpos' = wpos + 1
-  /\ UNCHANGED <<scen, words, fz, obs, res, pr, kind, runno>>
+  /\ UNCHANGED <<scen, words, fz, obs, res, pr, kind, runno, iter>>
 
 Overrun ==
   /\ Is("h.overrun") /\ Adv
   /\ viol' = viol \cup If(words # <<>> /\ wpos < Len(words), "overrun_not_at_end")
   /\ obs' = [obs EXCEPT !.overrun = TRUE]
-  /\ UNCHANGED <<scen, words, wpos, fz, res, pr, kind, runno>>
+  /\ UNCHANGED <<scen, words, wpos, fz, res, pr, kind, runno, iter>>
 
 \* ---- prune -----------------------------------------------------------------
 G(gs) == [k \in 1..Len(gs) |-> [begin |-> gs[k].begin, end |-> gs[k].end, discard |-> gs[k].discard]]
 PruneBegin ==
   /\ Is("h.prune.begin") /\ Adv /\ pr' = [data |-> Limbs(Ev.data), groups |-> G(Ev.groups)]
-  /\ UNCHANGED <<scen, viol, words, wpos, fz, obs, res, kind, runno>>
+  /\ UNCHANGED <<scen, viol, words, wpos, fz, obs, res, kind, runno, iter>>
 PruneEnd ==
   /\ Is("h.prune.end") /\ Adv
   /\ viol' = viol \cup If(PruneMeaning(pr) # Limbs(Ev.data), "prune_not_meaning")
@@ -110,14 +111,14 @@ PruneEnd ==
                   \cup (IF Len(pr.groups) <= 120
                         THEN LET mine == PruneCode(pr) IN If(mine.data # Limbs(Ev.data) \/ mine.groups # G(Ev.groups), "prune_transcription")
                         ELSE {})
-  /\ UNCHANGED <<scen, words, wpos, fz, obs, res, pr, kind, runno>>
+  /\ UNCHANGED <<scen, words, wpos, fz, obs, res, pr, kind, runno, iter>>
 
 \* ---- what the property did ---------------------------------------------------
 Draw == /\ Is("draw") /\ Adv /\ obs' = [obs EXCEPT !.draws = Append(@, <<Ev.label, Ev.dval>>)]
-        /\ UNCHANGED <<scen, viol, words, wpos, fz, res, pr, kind, runno>>
+        /\ UNCHANGED <<scen, viol, words, wpos, fz, res, pr, kind, runno, iter>>
 Call == /\ Is("call") /\ Adv
         /\ obs' = IF Ev.m = "skip" THEN obs ELSE [obs EXCEPT !.sig = "fail"]
-        /\ UNCHANGED <<scen, viol, words, wpos, fz, res, pr, kind, runno>>
+        /\ UNCHANGED <<scen, viol, words, wpos, fz, res, pr, kind, runno, iter>>
 \* Draws made inside an attempt that is rejected afterwards (a Repeat action that skips after drawing, a Custom
 \* function attempt that skips) belong to bits that pruning removes: they are not part of the test case's values.
 AttemptBegin ==
@@ -125,7 +126,7 @@ AttemptBegin ==
   /\ obs' = IF Ev.ev = "cinv.begin" THEN [obs EXCEPT !.marks = Append(@, Len(obs.draws))]
             ELSE \* a Repeat step starts with its first try; skipped-before-draw tries stay within the step
                  [obs EXCEPT !.step = IF obs.instep THEN @ ELSE Len(obs.draws) - 1, !.instep = TRUE, !.actmark = Len(obs.draws)]
-  /\ UNCHANGED <<scen, viol, words, wpos, fz, res, pr, kind, runno>>
+  /\ UNCHANGED <<scen, viol, words, wpos, fz, res, pr, kind, runno, iter>>
 AttemptEnd ==
   /\ l <= Len(Trace) /\ Trace[l].ev \in {"sm.action.end", "cinv.end"} /\ Adv
   /\ IF Ev.ev = "cinv.end"
@@ -136,12 +137,12 @@ AttemptEnd ==
               drew == Len(obs.draws) > obs.actmark
           IN obs' = [obs EXCEPT !.draws = IF skipped /\ drew /\ obs.step >= 0 THEN SubSeq(@, 1, obs.step) ELSE @,   \* the step is rejected
                                 !.instep = skipped /\ ~drew]
-  /\ UNCHANGED <<scen, viol, words, wpos, fz, res, pr, kind, runno>>
+  /\ UNCHANGED <<scen, viol, words, wpos, fz, res, pr, kind, runno, iter>>
 
-InvBegin == /\ Is("inv.begin") /\ Adv /\ obs' = NoObs /\ UNCHANGED <<scen, viol, words, wpos, fz, res, pr, kind, runno>>
+InvBegin == /\ Is("inv.begin") /\ Adv /\ obs' = NoObs /\ UNCHANGED <<scen, viol, words, wpos, fz, res, pr, kind, runno, iter>>
 InvEnd == /\ Is("inv.end") /\ Adv
           /\ obs' = [obs EXCEPT !.ended = IF Ev.how = "ret" THEN "ret" ELSE IF Ev.last = "skip" THEN "skip" ELSE "unwind"]
-          /\ UNCHANGED <<scen, viol, words, wpos, fz, res, pr, kind, runno>>
+          /\ UNCHANGED <<scen, viol, words, wpos, fz, res, pr, kind, runno, iter>>
 
 Verdict(o) == IF o.sig = "fail" THEN "failed" ELSE IF o.ended = "ret" THEN "passed" ELSE "skipped"
 Summary == [draws |-> obs.draws, verdict |-> Verdict(obs), consumed |-> wpos, nwords |-> Len(words), overrun |-> obs.overrun,
@@ -162,6 +163,13 @@ V_Rel(lbl, s) ==
               [] OTHER -> {}
         : i \in Rels(lbl) }
 
+V_RelIter(lbl, it, s) ==
+  UNION { LET r == scen.rel[i]
+              key == r.b \o "#" \o ToString(it) IN
+          IF r.kind # "replay" \/ key \notin DOMAIN res THEN {}
+          ELSE If(s.draws # res[key].draws \/ s.verdict # res[key].verdict, "replay_differs")
+        : i \in Rels(lbl) }
+
 FuzzEnd ==
   /\ Is("fuzz.end") /\ Adv
   /\ LET s == Summary
@@ -170,24 +178,27 @@ FuzzEnd ==
                         \cup V_Rel(lbl, s)
         /\ res' = [x \in DOMAIN res \cup {lbl} |-> IF x = lbl THEN s ELSE res[x]]
   /\ fz' = NoFz /\ obs' = NoObs
-  /\ UNCHANGED <<scen, words, wpos, pr, kind, runno>>
+  /\ UNCHANGED <<scen, words, wpos, pr, kind, runno, iter>>
 
 \* invocations of a Check run are labelled by their phase kind: "repro", "final", "ff1", ...
 OnceEnd ==
   /\ Is("h.once.end") /\ Adv
   /\ IF fz.j = 0 /\ kind \in {"gen", "repro", "final", "ff1", "capture"}
      THEN LET s == Summary
-              lbl == kind \o "@" \o ToString(runno) IN
-          /\ viol' = viol \cup V_Rel(lbl, s)
-          /\ res' = [x \in DOMAIN res \cup {lbl} |-> IF x = lbl THEN s ELSE res[x]]
+              lbl == kind \o "@" \o ToString(runno)
+              \* random test cases are also labelled by their index, and compared with the case of the same index of the other run
+              lbi == lbl \o "#" \o ToString(iter)
+          IN
+          /\ viol' = viol \cup (IF kind = "gen" THEN V_RelIter(lbl, iter, s) ELSE V_Rel(lbl, s))
+          /\ res' = [x \in DOMAIN res \cup {lbl, lbi} |-> IF x \in {lbl, lbi} THEN s ELSE res[x]]
      ELSE /\ viol' = viol /\ res' = res
-  /\ UNCHANGED <<scen, words, wpos, fz, obs, pr, kind, runno>>
+  /\ UNCHANGED <<scen, words, wpos, fz, obs, pr, kind, runno, iter>>
 
-RunBegin == /\ Is("run.begin") /\ Adv /\ runno' = Ev.run /\ UNCHANGED <<scen, viol, words, wpos, fz, obs, res, pr, kind>>
+RunBegin == /\ Is("run.begin") /\ Adv /\ runno' = Ev.run /\ UNCHANGED <<scen, viol, words, wpos, fz, obs, res, pr, kind, iter>>
 
 Handled == {"sm.action.begin", "sm.action.end", "cinv.begin", "cinv.end", "run.begin", "scen.begin", "scen.end", "h.phase", "h.ff.load", "h.fuzz.buf", "fuzz.begin", "h.bits", "h.overrun", "h.prune.begin", "h.prune.end",
             "draw", "call", "inv.begin", "inv.end", "fuzz.end", "h.once.end"}
-Other == /\ l <= Len(Trace) /\ Trace[l].ev \notin Handled /\ Adv /\ UNCHANGED <<scen, viol, words, wpos, fz, obs, res, pr, kind, runno>>
+Other == /\ l <= Len(Trace) /\ Trace[l].ev \notin Handled /\ Adv /\ UNCHANGED <<scen, viol, words, wpos, fz, obs, res, pr, kind, runno, iter>>
 
 Next == AttemptBegin \/ AttemptEnd \/ RunBegin \/ ScenBegin \/ ScenEnd \/ Phase \/ FFLoad \/ FuzzBuf \/ FuzzBegin \/ Bits \/ Overrun \/ PruneBegin \/ PruneEnd \/ Draw \/ Call
         \/ InvBegin \/ InvEnd \/ FuzzEnd \/ OnceEnd \/ Other
